@@ -53,6 +53,14 @@ def programs(tier, rnd: random.Random):
                 fam += [f"{{ RddV = {a} {o1} {b} {o2} {c}; }}", f"{{ int64_t x = {a} {o1} {b} {o2} {c}; RddV = x; }}",
                         f"{{ RddV = ({a} {o1} {b} {o2} {c}) ? RssV : RttV; }}"]
     progs += fam if tier != "quick" else rnd.sample(fam, 120)
+    # constant conditions / operands that are CONVERSIONS of literals: the converted value decides (a narrowing cast can make a
+    # non-zero literal zero, a sign change can make a positive one negative)
+    cfam = []
+    for ty in ("uint8_t", "int8_t", "uint16_t", "int16_t", "uint32_t", "int32_t", "uint64_t", "int64_t"):
+        for lit in ("0x100", "0x80", "65536", "0x8000", "0x100000000LL", "0x80000000U", "255", "0xffffffffffffffffULL", "0"):
+            cfam += [f"{{ RddV = (({ty}) {lit}) ? RssV : RttV; }}", f"{{ RddV = (({ty}) {lit}) < 0 ? RssV : RttV; }}",
+                     f"{{ RddV = ({ty}) {lit}; }}", f"{{ RddV = (({ty}) {lit}) + 1; }}", f"{{ RdV = !(({ty}) {lit}); }}"]
+    progs += cfam if tier != "quick" else rnd.sample(cfam, 90)
     # dead arms mentioning things used elsewhere
     progs += ["{ RdV = RtV; RdV = (1 ? RsV : RtV); }", "{ RdV = (0 ? RsV : RtV); ReV = RsV; }", "{ RdV = (1 ? RsV : siV); ReV = siV; }",
               "{ int32_t a = RsV; RdV = (1 ? RtV : a); ReV = a; }", "{ RdV = (1 ? RsV : clz32(RtV)); }", "{ RdV = (0 ? ({ ReV = 1; RtV; }) : RsV); }",
